@@ -406,7 +406,9 @@ func runMapOrder(c Case) engine.Result {
 		vmap.Perm = func(site string, n int) int {
 			sitesSeen[site] = true
 			if n > 4 {
-				return 0 // more than 4! orders: natural order only (reported as a cap below)
+				// more than 4! orders: natural, reversed, every rotation and every reversed rotation (2n orders)
+				ch := cc.Choose(2*n, site)
+				return -ch
 			}
 			return cc.Choose(vmap.Factorial(n), site)
 		}
